@@ -110,7 +110,9 @@ Section WithEv.
         | VBool a, VBool b => Ok (Bool.eqb a b)
         | VStr a, VStr b => Ok (String.eqb a b)
         | VArr a, VArr b =>
-            if Nat.eqb (List.length a) (List.length b) then eq_thunks a b else Ok false
+            (* operation.rs `eq`: the last pair is compared first, the others are pushed on the stack in
+               order and therefore popped in reverse: right to left *)
+            if Nat.eqb (List.length a) (List.length b) then eq_thunks (rev a) (rev b) else Ok false
         | VRec a ta, VRec b tb =>
             (* operation.rs `eq`: two records without fields and without sealed tail are equal; a record
                without fields is the inline empty record, which is different from any allocated record
@@ -121,8 +123,11 @@ Section WithEv.
             if empty a ta && empty b tb then Ok true
             else if empty a ta || empty b tb then Ok false
             else if Nat.eqb (List.length a) (List.length b) && forallb (fun '(x, _) => mem x b) a then
-              eq_thunks (map snd a)
-                        (map (fun '(x, _) => match lookup x b with Some t => t | None => Th [] (Var x) end) a)
+              (* gen_eqs: the first field (in the order of the left record) is compared first, the
+                 remaining pairs are pushed in order and popped in reverse *)
+              let order (l : list thunk) := match l with [] => [] | t :: l' => t :: rev l' end in
+              eq_thunks (order (map snd a))
+                        (order (map (fun '(x, _) => match lookup x b with Some t => t | None => Th [] (Var x) end) a))
             else Ok false
         | VClo _ _ _, VClo _ _ _ => Err Incomparable
         | _, _ => Ok false
